@@ -29,8 +29,14 @@ HelperAttrs == CASE c.helper = "skip" -> << TS("#[typeshare(skip)]") >>
                                              TS("#[typeshare(kotlin(type = \"Int\"))]") >>
 MixBefore == IF c.mix = "none" THEN <<>> ELSE << A("doc", "/// documented"), A("cfg", "#[cfg(all())]") >>
 \* serde attributes valid at the position: fields take `default`, variants take `rename` (unions derive nothing)
+\* mix cfg_attr: a conditional attribute (true predicate) that carries a serde rename and merely MENTIONS the word typeshare
+\* (in a doc string, in a feature name): it is not a typeshare attribute, Strip keeps it, and so must the macro
 MixAfter(pos) == IF c.mix = "serde" /\ c.kind # "union"
-                 THEN << A("serde", IF pos = "variant" THEN "#[serde(rename = \"renamed_key\")]" ELSE "#[serde(default)]") >> ELSE <<>>
+                 THEN << A("serde", IF pos = "variant" THEN "#[serde(rename = \"renamed_key\")]" ELSE "#[serde(default)]") >>
+                 ELSE IF c.mix = "cfg_attr"
+                 THEN << A("cfg_attr", IF c.kind = "union" THEN "#[cfg_attr(not(feature = \"typeshare-off\"), doc = \"typeshare is only mentioned\")]"
+                                       ELSE "#[cfg_attr(not(feature = \"typeshare-off\"), serde(rename = \"via_cfg_attr\"), doc = \"typeshare is only mentioned\")]") >>
+                 ELSE <<>>
 At(i, pos) == MixBefore \o (IF i \in c.at THEN HelperAttrs ELSE <<>>) \o MixAfter(pos)
 M(name, i, pos, fields) == [name |-> name, attrs |-> At(i, pos), fields |-> fields]
 F(name, i) == [name |-> name, attrs |-> At(i, "field"), fields |-> <<>>]
